@@ -283,14 +283,14 @@ func c13Units(thorough bool) []*explore.Unit {
 					}
 					p := c13Params{state: st, entry: en, how: how, after: af}
 					out := &c13Obs{}
-					b := 1
+					b := 2
 					if thorough {
-						b = 2
+						b = 3
 					}
 					if how == "deadline" {
-						b = 0
+						b = 1
 						if thorough {
-							b = 1
+							b = 2
 						}
 					}
 					units = append(units, &explore.Unit{Name: p.String(), Bound: b, Opt: vrt.Options{MaxSteps: 60000},
